@@ -212,6 +212,33 @@ class ChildFamily:
         r.all_expr = True
         return r
 
+    def attr_func(self, attr):
+        """Parameter of the i-th child as a function of the index (meaningful only for the
+        classes that have the attribute)."""
+        sort = sym.I if attr == "n" else sym.R
+        return z3.Function(f"{attr}[{self.name}]", sym.I, sort)
+
+    def refinement_facts(self, I, cls_name):
+        """What it means for the i-th child to be a Constant, for every i (the quantified form
+        of the per-child refinement of contracts.refine): it is defined everywhere, its value is
+        the stored number, it mentions no variable and all its partials are 0."""
+        key = ("refinement", self.name, cls_name)
+        if key in I.ghost.setdefault("big_registered", set()) or keying():
+            return
+        I.ghost["big_registered"].add(key)
+        if cls_name != "Constant":
+            return
+        from . import spec
+        valF = self.attr_func("value")
+        q = qm(I)
+        q.foralls.append((self.length, lambda t: z3.Implies(self.tagF(t) == sym.CLS["Constant"], self.varsF(t) == sym.empty_set())))
+        for pt in list(I.ghost.get("points", {}).values()):
+            def fact(t, pt=pt):
+                d = spec.den(I, self.child(I, t), pt)
+                facts = [d.D, d.V == valF(t)] + [d.dV(n) == 0 for n in I.ghost.get("ambient_names", [])]
+                return z3.Implies(self.tagF(t) == sym.CLS["Constant"], z3.And(*facts))
+            q.foralls.append((self.length, fact))
+
     # denotation symbols per point
     def den_funcs(self, pn):
         return (z3.Function(f"D[{self.name}|{pn}]", sym.I, sym.B),
